@@ -5,6 +5,7 @@
 # natively); 2 = inconclusive (timeout, unwinding bound, vacuity or encoder disagreement).
 cd "$(dirname "$0")"
 . ./env.sh
+export VERIF_DIR="$(pwd)"
 prop="$1"
 tier="${2:-${VERIF_TIER:-quick}}"
 if [ ! -x bin/gosx ] || [ -n "$(find engine -name '*.go' -newer bin/gosx 2>/dev/null | head -1)" ]; then
